@@ -119,11 +119,13 @@ class World:
                                          ssl_context=simnet.RecordingSSLContext("proxy") if cfg["proxy"] == "https" else None)
         self.pool = httpcore.ConnectionPool(**kw)
 
-    def request(self, scheme, host, port, token, headers=None, content=None, sni=None, method="GET"):
+    def request(self, scheme, host, port, token, headers=None, content=None, sni=None, method="GET", target=None):
         url = f"{scheme}://{host}" + (f":{port}" if port is not None else "") + f"/{token}"
         ext = {}
         if sni is not None:
             ext["sni_hostname"] = sni
+        if target is not None:
+            ext["target"] = target        # the request target written on the wire, independent of the URL that selects the connection
         nlog = len(self.net.log)
         try:
             r = self.pool.request(method, url, headers=headers, content=content, extensions=ext)
